@@ -52,6 +52,19 @@ POOL = {
     "tset(uint256)": e2e.arg(0) + ["PUSH0", "TSTORE"] + e2e.arg(0) + [("PUSH", 2), "SSTORE"],
     "mark()": ["TIMESTAMP", ("PUSH", 3), "SSTORE", ("PUSH", 1), ("PUSH", 4), "SSTORE"],
     "hit()": [("PUSH", 4), "SLOAD", ("PUSH", 3), "SLOAD", "TIMESTAMP", "EQ", "AND", ("PUSHL", "h"), "JUMPI", "STOP", ("LABEL", "h"), ("PUSH", 55), "PUSH0", "SSTORE"],
+    # two asserts in one target: the first can never fail (timestamps start above 0) but looks feasible to a solver that
+    # only knows the state-related constraints; the second fails on the third call
+    "tick()": ["TIMESTAMP", "ISZERO", ("PUSHL", "bad"), "JUMPI", "PUSH0", "SLOAD", ("PUSH", 2), "EQ", ("PUSHL", "bad"), "JUMPI",
+               "PUSH0", "SLOAD", ("PUSH", 1), "ADD", "PUSH0", "SSTORE", "STOP", ("LABEL", "bad")] + e2e.panic(1),
+    # the stored value is tied to a second argument that is constrained only AFTER the tie (x == y, then a branch on y):
+    # the two branch states hold the same storage term under different constraints and must not be merged
+    "seteq(uint256,uint256)": require(e2e.arg(0) + e2e.arg(1) + ["EQ"]) + [("PUSH", 2)] + e2e.arg(1) + ["GT", ("PUSHL", "big"), "JUMPI",
+                                                                           e2e.arg(0)[0], e2e.arg(0)[1], "PUSH0", "SSTORE", "STOP", ("LABEL", "big"),
+                                                                           ("PUSH", 1), ("PUSH", 1), "SSTORE"] + e2e.arg(0) + ["PUSH0", "SSTORE"],
+    # an unrelated requirement first, then the store, then a branch on the stored argument: the two branch states differ
+    # only in the constraint on the stored value
+    "setsmall(uint256,uint256)": require(e2e.arg(1)) + e2e.arg(0) + ["PUSH0", "SSTORE", ("PUSH", 10)] + e2e.arg(0) + [
+        "LT", ("PUSHL", "small"), "JUMPI", "STOP", ("LABEL", "small"), "PUSH0", "PUSH0", "LOG0"],
     "seed(uint256)": require([("PUSH", 3)] + e2e.arg(0) + ["LT"]) + e2e.arg(0) + [("PUSH", 5), "MUL", ("PUSH", 1), "SSTORE"],
 }
 TGET = ("tget()", ["PUSH0", "TLOAD"] + ret_word())
@@ -155,6 +168,11 @@ def handmade():
         out.append(dict(fns=["deposit()"], inv="y<K", K=5, depth=d + 1, senders=("target", [S1]), k=f"sender-balance-reach-d{d+1}", seed=0, deal=(S1, 5)))
         out.append(dict(fns=["unlock()", "inc()"], inv="x!=K", K=77, depth=d, senders=None, k=f"unlock-d{d}", seed=0))
         out.append(dict(fns=["inc()", "trap(uint256)"], inv="x<K", K=10, depth=d + 1, senders=None, k=f"trap-d{d+1}", seed=0))
+        out.append(dict(fns=["tick()"], inv="x<K", K=10, depth=d + 1, senders=None, k=f"tick-d{d+1}", seed=0))
+        out.append(dict(fns=["setsmall(uint256,uint256)"], inv="x<K", K=10, depth=d, senders=None, k=f"setsmall-d{d}", seed=0))
+        out.append(dict(fns=["setsmall(uint256,uint256)"], inv="x!=K", K=3, depth=d, senders=None, k=f"setsmall-eq-d{d}", seed=0))
+        out.append(dict(fns=["seteq(uint256,uint256)"], inv="x!=K", K=1, depth=d, senders=None, k=f"seteq-small-d{d}", seed=0))
+        out.append(dict(fns=["seteq(uint256,uint256)"], inv="x!=K", K=5, depth=d, senders=None, k=f"seteq-big-d{d}", seed=0))
     return out
 
 
@@ -239,6 +257,76 @@ def run_factory(arg):
 
         rec.harness_error(f"{ident}: {type(e).__name__}: {e} | {traceback.format_exc().strip().splitlines()[-2][:160]}")
     return rec.events, {"cases": 1}
+
+def two_instance_case(sel_a, sel_b, inv_on, K):
+    """two instances a, b of the same target contract with DIFFERENT selector filters (targetSelectors() returns one
+    FuzzSelector per instance); the invariant reads x() of `inv_on`"""
+    tfns = [(sg, POOL[sg]) for sg in ("inc()", "setA(uint256)")] + GETTERS
+    target = e2e.Spec("Tgt", fns=tfns)
+    setup_items = e2e.create_from_data("tgt", store_slot=0) + e2e.create_from_data("tgt", store_slot=6)
+    slot = 0 if inv_on == "a" else 6
+    inv = fail_if(e2e.ext_call([("PUSH", slot), "SLOAD"], "x()", static=True) + ["POP", ("PUSH", 0x80), "MLOAD", ("PUSH", K), "EQ"])
+    entries = [(0, sel_a), (6, sel_b)]
+    words = [0x20, len(entries)]
+    offs, structs, cur = [], [], 32 * len(entries)
+    for sl, sigs in entries:
+        offs.append(cur)
+        st = [("ADDR", sl), 0x40, len(sigs)] + [int.from_bytes(e2e.selector(x), "big") << 224 for x in sigs]
+        structs.append(st)
+        cur += 32 * len(st)
+    words += offs
+    for st in structs:
+        words += st
+    it = []
+    for k, w in enumerate(words):
+        it += ([("PUSH", w[1]), "SLOAD"] if isinstance(w, tuple) else [("PUSH", w, 32) if w >= (1 << 200) else ("PUSH", w)]) + [
+            ("PUSH", 32 * k), "MSTORE"]
+    tsel_getter = it + [("PUSH", 32 * len(words)), "PUSH0", "RETURN"]
+    tfn = [("setUp()", setup_items), ("invariant_i()", inv),
+           ("targetSenders()", addr_array_getter([])), ("excludeSenders()", addr_array_getter([])),
+           ("targetContracts()", addr_array_getter([])), ("excludeContracts()", addr_array_getter([])),
+           ("targetSelectors()", tsel_getter), ("excludeSelectors()", addr_array_getter([]))]
+    return e2e.Spec("InvT2", fns=tfn, data={"tgt": target.creation()}), target
+
+
+def run_two_instances(arg):
+    sel_a, sel_b, inv_on, K, depth, tier = arg
+    rec = common.Recorder(tier=tier)
+    short = lambda l: "+".join(x.split("(")[0] for x in l)  # noqa: E731
+    ident = f"two-instances a:[{short(sel_a)}] b:[{short(sel_b)}] inv {inv_on}.x!={K} d{depth}"
+    key = f"two-instances/{short(sel_a)}/{short(sel_b)}/{inv_on}"
+    try:
+        test, target = two_instance_case(sel_a, sel_b, inv_on, K)
+        o = e2e.run(test, others=(target,), invariant_depth=depth, solver_timeout_assertion=60000)
+        r = o.result("invariant_i")
+        if r is None:
+            rec.inconc("selector-filters", ident, f"no result: {o.warnings[:2]} {o.exception!r}")
+            return rec.events, {"cases": 1}
+        A, B = 0xAAAA0002, 0xAAAA0003
+        state = oracle.post_setup(test, address_oracle=[A, B])
+        tgs = [invoracle.Target(A, target, list(sel_a)), invoracle.Target(B, target, list(sel_b))]
+        truth = invoracle.ground_truth(state, tgs, "invariant_i()", depth, [], [], cap=20 if tier == "quick" else 90)
+        verdict = {0: "PASS", 1: "FAIL"}.get(r.exitcode, f"other({r.exitcode})")
+        if truth.status == "unknown":
+            rec.inconc("selector-filters", ident, f"ground truth undecided: {truth.detail}")
+        elif truth.status == "fails" and verdict == "PASS":
+            rec.violation("selector-filters", key + "/missed", f"{ident}: the sequence {truth.sequence} with {fmt(truth.model)} breaks the "
+                          "invariant but halmos reports PASS", {"sequence": truth.sequence, "model": truth.model, "line": o.line("invariant_i")})
+        elif truth.status == "safe" and verdict == "FAIL" and any(pm.is_valid for pm in (r.models or [])):
+            rec.violation("selector-filters", key + "/spurious", f"{ident}: FAIL with a valid counterexample although no admissible "
+                          "sequence breaks the invariant (a filtered-out function was called)", {"line": o.line("invariant_i"), "stdout": o.stdout[-800:]})
+        elif verdict in ("PASS", "FAIL"):
+            rec.ok("selector-filters", ident)
+        else:
+            rec.inconc("selector-filters", ident, f"verdict {verdict} ({o.warnings[:1]})")
+    except oracle.OracleError as e:
+        rec.inconc("selector-filters", ident, f"oracle: {e}")
+    except Exception as e:
+        import traceback
+
+        rec.harness_error(f"{ident}: {type(e).__name__}: {e} | {traceback.format_exc().strip().splitlines()[-2][:160]}")
+    return rec.events, {"cases": 1}
+
 
 
 def run_case(arg):
@@ -340,6 +428,13 @@ def main(run: common.Run):
             total[k] = total.get(k, 0) + v
     if not only or "hand" in only:
         for res in common.parallel_map(run_factory, [(d, f, tier) for d in (1, 2) for f in ("bump", "make")], 4):
+            if res and res[0] == "error":
+                run.harness_error("worker crashed: " + res[1].strip().splitlines()[-1])
+                continue
+            common.replay_events(run, res[0])
+        INC, SETA = ["inc()"], ["setA(uint256)"]
+        two = [(sa, sb, on, 5, d, tier) for sa, sb in ((INC, SETA), (SETA, INC)) for on in ("a", "b") for d in (1, 2)]
+        for res in common.parallel_map(run_two_instances, two, 4):
             if res and res[0] == "error":
                 run.harness_error("worker crashed: " + res[1].strip().splitlines()[-1])
                 continue
